@@ -71,8 +71,9 @@ func (m c06) Run(ctx *core.Ctx) {
 			}
 		}
 		// N: how the base VALUE is used before resolving through (*Url).Parse:
-		// 0 fresh, 1 SearchParams() read, 2 getters + Clone read, 3 an earlier resolution
-		cs := &core.Case{Check: law, Base: core.S(base), HasBase: true, Input: core.S(ref), N: r.IntN(4)}
+		// 0 fresh, 1 SearchParams() read, 2 getters + Clone read, 3 an earlier resolution,
+		// 4 earlier results mutated by their owner
+		cs := &core.Case{Check: law, Base: core.S(base), HasBase: true, Input: core.S(ref), N: r.IntN(5)}
 		ctx.Begin(cs)
 		m.Exec(ctx, cs)
 	}
@@ -119,6 +120,16 @@ func resolveValue(ctx *core.Ctx, base, ref string, n int) (u *url.Url, err error
 		case 3:
 			_, _ = b.Parse("x?y#z")
 			_, _ = b.Parse("#f")
+		case 4:
+			// an earlier RESULT was mutated by its owner: the base value must not notice
+			for _, first := range []string{"#one", "", "?q"} {
+				if r1, e := b.Parse(first); e == nil && r1 != nil {
+					r1.SetHash("")
+					r1.SetSearch("")
+					r1.SetPathname("/zz")
+					r1.SearchParams().Append("z", "1")
+				}
+			}
 		}
 		u, err = b.Parse(ref)
 	})
